@@ -222,6 +222,20 @@ func checkC15(c *Ctx, r *Report) {
 			}
 		}
 	}
+	cfgOK := c.checkConfigSemantics(r, c.roles(r), "C15.config-values")
+	camelOK := c.checkCamelSemantics(r, "C15.key-values")
+	if cfgOK {
+		r.Decide([]string{"C15.attr-lookup:", "C15.attributes:", "C15.subst:", "C15.int-width:", "C15.keys:", "C15.optional-key:", "C15.registry:", "C15.assert:", "C15.exhaustive:", "C15.chan-size:"}, nil,
+			"configurations evaluated end to end: every registered and synthetic plugin type created from generated configurations and compared with the statement's reference resolution; Refresh evaluated for every logger × appender type and over ill-formed configurations")
+	}
+	if camelOK {
+		if fn := c.names().CamelFn; fn != nil {
+			r.Decide([]string{"C15.camel:", "C15.bounds:"}, func(k string) bool {
+				rest := k[strings.Index(k, ":")+1:]
+				return rest == fname(fn) || strings.HasPrefix(rest, fname(fn)+"#")
+			}, "key normaliser evaluated over every short string and over the three spellings of well-formed keys")
+		}
+	}
 	regs := c.pluginRegistrations()
 	r.Floor("RegisterPlugin sites", len(regs), 13)
 	cfg := c.configFuncs()
@@ -1348,6 +1362,16 @@ func (c *Ctx) checkConfigErrors(r *Report, cfg map[*ssa.Function]bool) {
 			last := sig.Results().At(sig.Results().Len() - 1).Type()
 			if types.TypeString(last, nil) != "error" {
 				return
+			}
+			// documented as "the returned error is always nil": nothing can be dropped
+			if sc := call.Common().StaticCallee(); sc != nil && sc.Signature.Recv() != nil {
+				rt := sc.Signature.Recv().Type()
+				if p, ok := rt.(*types.Pointer); ok {
+					rt = p.Elem()
+				}
+				if (isNamed(rt, "strings", "Builder") || isNamed(rt, "bytes", "Buffer")) && (sc.Name() == "Write" || sc.Name() == "WriteByte" || sc.Name() == "WriteRune" || sc.Name() == "WriteString") {
+					return
+				}
 			}
 			n++
 			used := false
